@@ -27,6 +27,9 @@ func (runInfo *runInfoStruct) funcExpr() {
 		for i, param := range funcExpr.Params {
 			runInfo.env.DefineValue(param, args[i])
 		}
+		if verifOn {
+			defer verifFunc(&runInfo, funcExpr)()
+		}
 
 		// run function statements
 		runInfo.runSingleStmt()
@@ -216,12 +219,18 @@ func (runInfo *runInfoStruct) callExpr() {
 	// useCallSlice lets us know to use CallSlice instead of Call because of the format of the args
 	if useCallSlice {
 		if callExpr.Go {
+			if verifOn {
+				verifSpawn(runInfo)
+			}
 			go f.CallSlice(args)
 			return
 		}
 		rvs = f.CallSlice(args)
 	} else {
 		if callExpr.Go {
+			if verifOn {
+				verifSpawn(runInfo)
+			}
 			go f.Call(args)
 			return
 		}
@@ -300,6 +309,9 @@ func (runInfo *runInfoStruct) callVMFunctionDirect(f reflect.Value, callExpr *as
 	runInfo.rv = nilValue
 
 	if callExpr.Go {
+		if verifOn {
+			verifSpawn(runInfo)
+		}
 		switch {
 		case fn0 != nil:
 			go fn0(runInfo.ctx)
